@@ -65,7 +65,7 @@ class SQLRepo:
                     self._session.delete(prop_link)
                     if delete_prop:
                         self._session.delete(prop_link.prop)
-                    self._session.commit()
+                    self._sync_pending_deletes()
 
                 for note_tags in [
                     sql_note.areas,
@@ -76,7 +76,7 @@ class SQLRepo:
                     for tag in note_tags:  # type: ignore[attr-defined]
                         if len(tag.notes) == 1:
                             self._session.delete(tag)
-                            self._session.commit()
+                            self._sync_pending_deletes()
 
                 self._session.delete(sql_note)
 
@@ -87,6 +87,16 @@ class SQLRepo:
             emsg = "Cannot delete zorg file since it does not exist."
             _LOGGER.debug(emsg, path=filename)
             return None
+
+    def _sync_pending_deletes(self) -> None:
+        """Makes the deletes above visible to the queries that follow.
+
+        NOT a commit: if we die while a page is being replaced, the index must
+        still hold the page's old notes (reindex compares the new notes with
+        them to decide which ones were modified).
+        """
+        self._session.flush()
+        self._session.expire_all()
 
     def get_notes_by_query(self, query: Optional[WhereOrFilter]) -> list[Note]:
         """Get note(s) from DB by using a query."""
